@@ -1292,7 +1292,7 @@ def main(repo: str, outdir: str, dry: bool = False) -> int:
                 body = source_pins.generated(repo, prop)
             except source_pins.PinError as e:
                 raise TranslateError(str(e))
-            return HEADER + "namespace Optyx.Generated\n\n" + body + "\nend Optyx.Generated\n"
+            return HEADER + f"namespace Optyx.Generated.Pins{prop}\n\n" + body + f"\nend Optyx.Generated.Pins{prop}\n"
         return make
 
     changed, errors, h = False, {}, hashlib.sha256()
